@@ -2,10 +2,9 @@ package eng
 
 import (
 	"bytes"
+	"context"
 	"crawshaw.io/sqlite"
 	"crawshaw.io/sqlite/sqlitex"
-	"runtime/debug"
-	"context"
 	"crypto/ecdsa"
 	"crypto/elliptic"
 	"crypto/sha256"
@@ -16,6 +15,7 @@ import (
 	"fmt"
 	"math/big"
 	"os"
+	"runtime/debug"
 	"strings"
 	"time"
 
@@ -36,18 +36,18 @@ type seqEntrySpec struct {
 }
 
 type seqCmd struct {
-	Op     string         `json:"op"`
-	Inst   int            `json:"inst,omitempty"`
-	Entry  int            `json:"entry,omitempty"`
-	Low    bool           `json:"low,omitempty"`
-	Pick   int            `json:"pick,omitempty"`
-	Out    string         `json:"out,omitempty"`
+	Op     string            `json:"op"`
+	Inst   int               `json:"inst,omitempty"`
+	Entry  int               `json:"entry,omitempty"`
+	Low    bool              `json:"low,omitempty"`
+	Pick   int               `json:"pick,omitempty"`
+	Out    string            `json:"out,omitempty"`
 	Faults map[string]string `json:"faults,omitempty"` // "k" -> errA|errN for the k-th operation granted by this run
-	Max    int            `json:"max,omitempty"`
-	V      int64          `json:"v,omitempty"`
-	Key    string         `json:"key,omitempty"`
-	Mut    string         `json:"mut,omitempty"`
-	Name   string         `json:"name,omitempty"`
+	Max    int               `json:"max,omitempty"`
+	V      int64             `json:"v,omitempty"`
+	Key    string            `json:"key,omitempty"`
+	Mut    string            `json:"mut,omitempty"`
+	Name   string            `json:"name,omitempty"`
 }
 
 type seqScenario struct {
